@@ -332,6 +332,19 @@ def k8_usable():
 # predicates (JSON specs -> pure callables; the same callable is used on the
 # live DB and on the model)
 
+def spelled(ctx, obj, name, step):
+    """The method under its current name or - every third step - under its deprecated camelCase alias (the same callable by
+    contract: `fooBar = function_deprecated_by(foo_bar)`)."""
+    if step % 3 == 2:
+        parts = name.split('_')
+        alias = parts[0] + ''.join(p.title() for p in parts[1:])
+        if alias != name and hasattr(obj, alias):
+            ctx.count('called-through-deprecated-alias')
+            ctx.count('alias:' + alias)
+            return getattr(obj, alias)
+    return getattr(obj, name)
+
+
 def make_pred(spec):
     k = spec['k']
     if k == 'true':
@@ -804,6 +817,34 @@ def run_case(ctx, case):
                         qrecs.append(('card', n, len(inv.get(n, ())), c))
                     ctx.count('q:absent-name-queries', 2 * (n not in pkeys) + 3 * (n not in tkeys))
                     ctx.count('q:present-name-queries', 2 * (n in pkeys) + 3 * (n in tkeys))
+                # the multi-name and derived read-only queries: answers per the relation where the statement gives one
+                # (union over the names), and - like every query - no trace in the collection afterwards
+                ctx.mon('M.query.multi')
+                present_p, present_t = sorted(pkeys)[:3], sorted(tkeys)[:3]
+                for names, meth, table in ((present_p + list(op['names']), 'tags_of_packages', fwd),
+                                           (list(op['names']) + present_p, 'tags_of_packages', fwd),
+                                           (present_t + list(op['names']), 'packages_of_tags', inv),
+                                           (list(op['names']) + present_t, 'packages_of_tags', inv)):
+                    if len(names) < 2:
+                        continue
+                    want = set()
+                    for n in names:
+                        want |= set(table.get(n, ()))
+                    try:
+                        got = getattr(cur, meth)(iter(names))
+                    except Exception:
+                        ctx.count('q:multi-name-query-raised')
+                        continue
+                    ctx.count('q:multi-name-query')
+                    if not isinstance(got, (set, frozenset)) or set(got) != want:
+                        qrecs.append((meth, names, want, got))
+                for call in (lambda: cur.ideal_tagset(present_t), lambda: [cur.discriminance(t) for t in present_t],
+                             lambda: list(cur.correlations()) if len(tkeys) <= 12 else None):
+                    try:
+                        call()
+                        ctx.count('q:derived-read-only-query')
+                    except Exception:
+                        ctx.count('q:derived-read-only-query-raised')
                 after = [snapshot(o) for _, o in objs]
                 ctx.mon('M.query', len(objs))
                 if partner is not None:
@@ -818,7 +859,7 @@ def run_case(ctx, case):
                     qfail = ('%s-disagrees-with-reference-in-query-step' % qrecs[0][0], 'step %d: %s' % (i, _fmt_recs(qrecs)))
                 nxt, nmodel = cur, model
             elif kind in ('reverse', 'reverse_copy'):
-                nxt = getattr(cur, kind)()
+                nxt = spelled(ctx, cur, kind, i)()
                 nmodel = model.reversed()
             elif kind == 'copy':
                 nxt = cur.copy()
@@ -834,15 +875,15 @@ def run_case(ctx, case):
                 nmodel = model.map_tags(lambda t: fmap[t])
             elif kind in ('filter_packages', 'filter_packages_copy'):
                 f = make_pred(op['pred'])
-                nxt = getattr(cur, kind)(f)
+                nxt = spelled(ctx, cur, kind, i)(f)
                 nmodel = model.keep_packages(f)
             elif kind in ('filter_tags', 'filter_tags_copy'):
                 f = make_pred(op['pred'])
-                nxt = getattr(cur, kind)(f)
+                nxt = spelled(ctx, cur, kind, i)(f)
                 nmodel = model.keep_tags(f)
             elif kind in ('filter_packages_tags', 'filter_packages_tags_copy'):
                 f = make_pt_pred(op['pred'])
-                nxt = getattr(cur, kind)(f)
+                nxt = spelled(ctx, cur, kind, i)(f)
                 nmodel = model.keep_packages_tags(f)
             else:   # choose_packages / choose_packages_copy
                 names = list(op['names'])
@@ -850,7 +891,7 @@ def run_case(ctx, case):
                     dom = model.dom()
                     names = [x for x in names if x in dom or (x in model.pmax and cur.has_package(x))]
                 arg = iter(names) if op.get('as') == 'iter' else (tuple(names) if op.get('as') == 'tuple' else names)
-                nxt = getattr(cur, kind)(arg)
+                nxt = spelled(ctx, cur, kind, i)(arg)
                 nmodel = model.choose(names)
         except (KeyboardInterrupt, SystemExit):
             raise
@@ -1799,7 +1840,7 @@ _OPS_Q = {'dpair:formed/choose_packages/keeps-everything': 250, 'dpair:formed/ch
           'pair:op:query': 7000, 'pair:op:read': 2800, 'pair:op:reverse_view': 18000, 'q:absent-name-queries': 207500,
           'q:present-name-queries': 31000, 'q:with-live-derived-partner': 2100, 'q:with-live-partner': 7000,
           'view-start:both-empty': 4300, 'view-start:general': 7200, 'view-start:no-packages': 1500,
-          'view-start:no-tags': 2100, 'view-start:single-package': 2700, 'read:line-with-empty-tag-name': 5500, 'insert:without-tags': 12000}
+          'view-start:no-tags': 2100, 'view-start:single-package': 2700, 'read:line-with-empty-tag-name': 5500, 'insert:without-tags': 12000, 'q:multi-name-query': 20000, 'called-through-deprecated-alias': 3000}
 _OPS_T = dict((k, v * 40) for k, v in _OPS_Q.items())
 FLOORS = {'quick': {'nontrivial': 19500, 'monitors': {'M': 210000, 'M.pair': 50000, 'M.dpair': 22000, 'M.query': 310000},
                     'counters': _OPS_Q},
